@@ -19,7 +19,7 @@ VARIABLES l, o
 NoRec == [role |-> "", prev |-> "", cur |-> "", fl |-> ""]
 BB(x) == [A |-> x, B |-> x]
 ObsInit == [rec |-> BB(NoRec), claim |-> "none", crashes |-> FALSE, faults |-> FALSE, opened |-> {}, openby |-> BB(FALSE), spentby |-> BB(FALSE),
-            lostopen |-> BB(FALSE), lostspend |-> BB(FALSE), lossyTo |-> BB(FALSE), idr |-> BB(FALSE), v |-> {}, rates |-> <<>>, chain |-> "btc", q |-> <<>>, hasq |-> FALSE, drift |-> "", t |-> 0]
+            lostopen |-> BB(FALSE), lostspend |-> BB(FALSE), lossyTo |-> BB(FALSE), adv |-> FALSE, v |-> {}, rates |-> <<>>, chain |-> "btc", q |-> <<>>, hasq |-> FALSE, drift |-> "", t |-> 0]
 HasFl(fl, c) == \E i \in 1..Len(fl) : SubSeq(fl, i, i) = c
 SetOf(s) == {s[i] : i \in 1..Len(s)}
 
@@ -50,8 +50,7 @@ ApplyEv(ob, e) ==
     [] e.e = "open" -> [ob EXCEPT !.opened = @ \cup {[tx |-> e.tx, hash |-> e.hash, vout |-> e.vout]}, !.openby[e.n] = TRUE]
     [] e.e = "spend" -> IF e.ok THEN [ob EXCEPT !.spentby[e.n] = TRUE] ELSE ob
     [] e.e = "lost" -> [ob EXCEPT !.lossyTo[e.n] = TRUE]
-    [] e.e = "recv" -> IF e.res = "down" THEN [ob EXCEPT !.lossyTo[e.n] = TRUE]
-                       ELSE IF Has(e, "why") /\ e.pre # "" THEN [ob EXCEPT !.idr[e.n] = TRUE] ELSE ob
+    [] e.e = "recv" -> IF e.res = "down" THEN [ob EXCEPT !.lossyTo[e.n] = TRUE] ELSE ob
     [] e.e = "crash" -> [ob EXCEPT !.crashes = TRUE,
                                    !.lostopen[e.n] = @ \/ (ob.openby[e.n] /\ ~HasFl(ob.rec[e.n].fl, "o")),
                                    !.lostspend[e.n] = @ \/ (ob.spentby[e.n] /\ ~HasFl(ob.rec[e.n].fl, "c"))]
@@ -60,12 +59,12 @@ CheckEv(ob, e, st) ==
   CASE e.e = "send" ->
          ChkLeaks(e.k, SetOf(e.lk))
          \cup (IF e.k = "coop_close" THEN LET r == ob.rec[e.n] IN ChkCoopSend(ob.claim, r.role, r.prev, r.cur, HasFl(r.fl, "p"), ob.crashes, ob.faults) ELSE {})
-         \cup (IF e.k = "opening_tx_broadcasted" /\ st.a = "retx" THEN ChkRetx(ob.rec[e.n].cur) ELSE {})
+         \cup (IF e.k = "opening_tx_broadcasted" /\ st.a = "retx" /\ ~ob.adv THEN ChkRetx(ob.rec[e.n].cur) ELSE {})
          \cup (IF Has(e, "bad") THEN {V("D5", "D5|malformed-message-sent|" \o e.k, FALSE)} ELSE {})
     [] e.e = "recv" ->
          ChkLeaks(e.k, SetOf(e.lk))
-         \cup (IF e.res \notin {"down", "crash"}
-               THEN ChkRecv(e.k, IF Has(e, "why") THEN "cancel-id-in-use" ELSE e.k, e.dup, e.res, e.pre, e.to, SetOf(e.sent),
+         \cup (IF e.res \notin {"down", "crash"} /\ ~ob.adv     \* (after an adversarial duplicate D5 and D2 are no longer judged)
+               THEN ChkRecv(e.k, e.dup, e.res, e.pre, e.to, SetOf(e.sent),
                             IF e.k \in ReqKinds THEN RoleOfReq(e.k) ELSE ob.rec[e.n].role, ob.lossyTo[e.n], ob.crashes \/ ob.faults) ELSE {})
     [] e.e = "dlv" -> IF e.k = "coop_close" THEN ChkCoopRecv(ob.claim, ob.crashes, ob.faults) ELSE {}     \* the key is in the other node's inbox
     [] e.e = "fault" -> {V("D5", "D5|handler-" \o e.what \o "|" \o e.in, FALSE)}
@@ -89,7 +88,7 @@ EndChecksObs(ob) ==
       txs == [i \in 1..Len(q.txs) |-> TxQ(q.txs[i])]
   IN ChkEndAtomic(txs, rec(maker), rec(taker), ob.lostopen[maker], ob.lostspend[taker], ob.crashes, ob.faults)
      \cup ChkEndPaid(q.cpaid, rec(taker), ob.lostspend[taker], ob.crashes, ob.faults)
-     \cup ChkEndNode(rec("A"), q.A.act, q.A.up, ob.lostspend.A, ob.idr.A) \cup ChkEndNode(rec("B"), q.B.act, q.B.up, ob.lostspend.B, ob.idr.B)
+     \cup (IF ob.adv THEN {} ELSE ChkEndNode(rec("A"), q.A.act, q.A.up, ob.lostspend.A) \cup ChkEndNode(rec("B"), q.B.act, q.B.up, ob.lostspend.B))
 
 Sigs(vs) == {x.sig : x \in vs}
 InitT == /\ l = 1 /\ o = ObsInit /\ cf = [name |-> "trace", chain |-> "btc"] /\ w = [WInit EXCEPT !.tip = 1000] /\ sched = <<>>
@@ -103,7 +102,7 @@ StepT ==
        [] e.ev = "step" ->      \* (bounded quantifiers over singleton sets bind VALUES: each expensive expression is evaluated once)
             \E st \in {NormStep(e.st)} :
             \E w1 \in {IF o.drift = "" THEN Step(w, st) ELSE w} :
-            \E o1 \in {Fold([o EXCEPT !.faults = @ \/ st.f # None], e.evs, 1, st)} :
+            \E o1 \in {Fold([o EXCEPT !.faults = @ \/ st.f # None, !.adv = @ \/ (st.a = "advdup" /\ e.res # "noop")], e.evs, 1, st)} :
             \E dr \in {IF o.drift # "" THEN o.drift ELSE
                         LET real == SnapOfQ(e.q)  model == Snapshot(w1) IN
                         IF model = real THEN "" ELSE "step " \o ToString(e.i) \o " (" \o st.a \o "): " \o ToString(Describe(model, real))} :
